@@ -569,12 +569,20 @@ func genConcPlan(r *rand.Rand, tier string) *vfPlan {
 			group[1] = vfStep{Op: "deluser", User: "newbie"}
 		}
 	default:
+		// half of the free groups pair a token-management request (whose acknowledged effect is easy to observe) with any other request of the same user
+		mgmtFirst := chance(r, 0.5)
 		for len(group) < n {
 			u := "alice"
-			if chance(r, 0.12) {
+			if chance(r, 0.12) && !mgmtFirst {
 				u = "bob"
 			}
-			c := pick(r, cands(u))
+			cs := cands(u)
+			c := pick(r, cs)
+			if mgmtFirst && len(group) == 0 {
+				c = pick(r, cs[:8])
+			} else if mgmtFirst {
+				c = pick(r, cs[8:])
+			}
 			dup := false
 			for _, g := range group {
 				if g.String() == c.String() {
@@ -584,6 +592,28 @@ func genConcPlan(r *rand.Rand, tier string) *vfPlan {
 			if !dup {
 				group = append(group, c)
 			}
+		}
+	}
+	// most of the time the pending state a request needs to take its success path is created just before the group
+	for _, g := range group {
+		if !chance(r, 0.8) {
+			continue
+		}
+		switch g.Op {
+		case "u2fsignresp":
+			if g.A == "" {
+				p.Steps = append(p.Steps, vfStep{Op: "u2fsignreq", Sess: g.Sess})
+			}
+		case "webauthn_finish":
+			if g.A == "" {
+				p.Steps = append(p.Steps, vfStep{Op: "webauthn_begin", Sess: g.Sess})
+			}
+		case "totp_validate_new":
+			p.Steps = append(p.Steps, vfStep{Op: "totp_new", User: g.User})
+		case "u2f_regresp":
+			p.Steps = append(p.Steps, vfStep{Op: "u2f_regreq", User: g.User})
+		case "pushpoll":
+			p.Steps = append(p.Steps, vfStep{Op: "pushstart", Sess: g.Sess}, vfStep{Op: "approve", User: "alice"})
 		}
 	}
 	for i := range group {
